@@ -58,9 +58,17 @@ pub fn alphabet() -> Vec<Call> {
         c("chain_long", "#let v = aaaaaaaaaaaaaaaa.bbbbbbbbbbbbbbbbbbbb.cccccccccccccccccccc(d)", 40, 2, false),
         // resource extremes: nesting far deeper than any fixture, an erroneous text of the same depth
         c("deep", deep_text(), 80, 2, false),
+        // narrow and deep, badly spaced at every level: two of these in flight together hold 280
+        // levels, so a limit that is counted per process instead of per call shows in the output
+        c("deep_narrow", deep_narrow_text(), 80, 2, false),
         Call { name: "range_inner", text: DOC, width: 80, tab: 2, reorder: false, range: Some((40, 47)) },
         Call { name: "range_all", text: DOC, width: 20, tab: 2, reorder: false, range: Some((0, 1000)) },
     ]
+}
+
+fn deep_narrow_text() -> &'static str {
+    static T: std::sync::OnceLock<String> = std::sync::OnceLock::new();
+    T.get_or_init(|| format!("#{}1{}", "f( ".repeat(140), " )".repeat(140)))
 }
 
 fn deep_text() -> &'static str {
